@@ -141,8 +141,10 @@ def decode(req):
         for d in u[3]:
             if h(d) != 'decl' or len(d) != 6:
                 raise ValueError('malformed decl')
+        if not {str(a) for a in u[2]} <= {str(d[1]) for d in u[3]}:
+            raise ValueError('undeclared dummy')
     names = [str(u[1]) for u in units(prog)]
-    if str(prog[1]) not in names or sorted(cfg.order) != sorted(names):
+    if str(prog[1]) not in names or not set(cfg.order) <= set(names) or len(set(cfg.order)) != len(cfg.order):
         raise ValueError('main unit / order do not fit the units')
     for inp in inputs:
         if not isinstance(inp, list) or not all(isinstance(r, list) and r for r in inp):
@@ -338,8 +340,7 @@ def scheduler_order(prog):
         order = [it.local_name.lower() for it in SFilter(sch.sgraph)]
     finally:
         shutil.rmtree(d, ignore_errors=True)
-    rest = [str(u[1]) for u in units(prog) if str(u[1]) not in order]
-    return order + rest
+    return order       # units the driver never reaches are not items of the Scheduler: they are not processed
 
 
 def _error_stop(**kwargs):
@@ -402,10 +403,12 @@ def _real_apply(prog, cfg):
         sch = _scheduler(prog, d)
         items = list(SFilter(sch.sgraph))
         order = [it.local_name.lower() for it in items]
-        order += [str(u[1]) for u in units(prog) if str(u[1]) not in order]
         sf = items[0].source
         main = str(prog[1])
-        back = _export(sf, main)
+        try:
+            back = _export(sf, main)
+        except fir.Unsupported as e:
+            raise ValueError(f'request program is outside FIR after parsing: {e.kind}') from e
         if dumps(back) != dumps(fir.normalize(prog)):
             raise ValueError('request program does not round-trip through the printer and the frontend')
         text0 = '\n'.join(fgen(r) for r in sf.all_subroutines)
